@@ -48,7 +48,7 @@ def build_device(cfg):
     for i in range(cfg['nparam']):
         g, n = _names(i, cfg['nparam'], v2, cfg['style'])
         code = PARAM_CODES[i % len(PARAM_CODES)]
-        ext = v2 and (i % 3 == 1)
+        ext = v2 and (i % 3 != 2)
         params.append(simcf.ParamVar(g, 'p' + n[1:] if len(n) > 1 else n, code, value=(i % 100),
                                      ro=(i % 4 == 2), extended=ext, persistent=ext and (i % 2 == 1)))
     mems = [simcf.SimMem(0, 16)] if cfg.get('mem') else []
